@@ -188,4 +188,7 @@ def unf_cases(draw, max_events=15, tier="quick"):
     ks = draw(st.lists(st.sampled_from([None, None, 1, 1, 2, 3, 5]), min_size=len(sets), max_size=len(sets)))
     iters = [draw(st.integers(0, 7)), draw(st.integers(0, 8)), draw(st.integers(0, 6)),
              draw(st.lists(st.integers(0, 3), min_size=0, max_size=4))]
-    return {"syn": tabs, "events": events, "sets": sets, "ks": ks, "iters": iters}
+    case = {"syn": tabs, "events": events, "sets": sets, "ks": ks, "iters": iters}
+    if tier == "thorough":
+        case["allsets"] = 12       # every subset of the first 12 events (4096) instead of the first 9 (512)
+    return case
